@@ -38,6 +38,7 @@ type cinstr struct {
 type cblock struct {
 	ins  []cinstr
 	nphi int
+	hit  uint32 // set once the block was entered on any explored path (grid-adequacy report)
 }
 
 type nativeFn func(r *Run, g *Goroutine, args []Value) Value
@@ -412,4 +413,52 @@ func protoGeneratedNative(fn *ssa.Function) nativeFn {
 		}
 	}
 	return nil
+}
+
+// BlockCov describes one basic block of an interpreted function for the grid-adequacy report.
+type BlockCov struct {
+	Func  string
+	File  string // path relative to the repository
+	Line  int
+	Block int
+	Hit   bool
+}
+
+// BlockCoverage lists the basic blocks of every compiled (i.e. entered at least once) function and of every
+// function declared in one of the files accepted by want, whether entered or not.
+func (p *Program) BlockCoverage(want func(file string) bool) []BlockCov {
+	var out []BlockCov
+	seen := map[*ssa.Function]bool{}
+	add := func(fn *ssa.Function, info *fnInfo) {
+		if fn == nil || seen[fn] || fn.Blocks == nil {
+			return
+		}
+		seen[fn] = true
+		file := trimPath(fn.Prog.Fset.Position(fn.Pos()).Filename)
+		for bi, b := range fn.Blocks {
+			line := 0
+			for _, ins := range b.Instrs {
+				if ins.Pos().IsValid() {
+					line = fn.Prog.Fset.Position(ins.Pos()).Line
+					break
+				}
+			}
+			hit := info != nil && bi < len(info.blocks) && info.blocks[bi].hit != 0
+			out = append(out, BlockCov{Func: fn.String(), File: file, Line: line, Block: bi, Hit: hit})
+		}
+	}
+	p.infos.Range(func(k, v any) bool {
+		add(k.(*ssa.Function), v.(*fnInfo))
+		return true
+	})
+	for fn := range ssautil.AllFunctions(p.Prog) {
+		if fn == nil || fn.Blocks == nil || seen[fn] || !fn.Pos().IsValid() {
+			continue
+		}
+		file := trimPath(fn.Prog.Fset.Position(fn.Pos()).Filename)
+		if want(file) {
+			add(fn, nil)
+		}
+	}
+	return out
 }
